@@ -158,7 +158,7 @@ def iterparse_character_subset(s: str, expand_ranges: bool = False) -> Iterator[
                 k = next(subset_index_iterator)
                 end_char = s[k]
                 if end_char == '\\' and (k < length - 1):
-                    if s[k + 1] in r'-|.^?*+{}()[]':
+                    if s[k + 1] in r'-|.^?*+{}()[]$':
                         k = next(subset_index_iterator)
                         end_char = s[k]
                     elif s[k + 1] in r'sSdDiIcCwWpP':
@@ -173,7 +173,7 @@ def iterparse_character_subset(s: str, expand_ranges: bool = False) -> Iterator[
                 else:
                     yield ord(char), ord(end_char) + 1
 
-        elif s[k] in r'|.^?*+{}()':
+        elif s[k] in r'|.^?*+{}()$':
             if escaped:
                 escaped = False
             on_range = False
